@@ -50,6 +50,7 @@ type Contract struct {
 	Allocs      bool              // the function may allocate objects visible to the caller
 	AllocT      []string          // ... of these kinds (struct short names, "map", "chan", "cell")
 	SpawnMod    []ast.Expr        // what goroutines started by this function may modify (default: nothing)
+	SpawnReq    []Clause          // spawn requires[label] e: must hold, in the spawning activation's state, at every go statement of the function
 	Observe     map[string]string // obligation-name suffix -> why a failure of it is outside the property (reported, not alarmed)
 	Devirt      map[string]string
 	Dispatch    map[string][]string // closed-world dispatch: interface name -> the implementing types considered
@@ -711,6 +712,14 @@ func parseContractFile(path, pkgPath, pkgName string) (*ContractFile, error) {
 					}
 				}
 			case "spawn":
+				if strings.HasPrefix(rest, "requires") {
+					c, err := mkClause(strings.TrimPrefix(rest, "requires"), rl.line)
+					if err != nil {
+						return nil, err
+					}
+					cur.SpawnReq = append(cur.SpawnReq, c)
+					continue
+				}
 				r2 := strings.TrimSpace(strings.TrimPrefix(rest, "modifies"))
 				for _, m := range splitTop(r2, ',') {
 					m = strings.TrimSpace(m)
